@@ -521,6 +521,25 @@ pub struct InitCase {
     pub stray: u8,
 }
 
+/// What a caller may hand to `with_av1_sequence_header`: the bare sequence header OBU, or the start of the encoder's first
+/// packet (temporal delimiter in front, a frame OBU behind).  The record must carry the sequence header OBU only.
+fn av1_argument(c: &InitCase, seq_obu: &[u8]) -> Vec<u8> {
+    let mut v = Vec::new();
+    // mono_chrome headers are the listed open finding (the parser gives up on some of them and the argument is then copied
+    // verbatim): they keep the bare form so that the finding's signatures stay what they are
+    if c.av1.normalised().expect().mono {
+        return seq_obu.to_vec();
+    }
+    if c.av1_obu.fill & 1 != 0 {
+        v.extend_from_slice(&obu(2, false, 0, true, 0, &[]));
+    }
+    v.extend_from_slice(seq_obu);
+    if c.av1_obu.fill & 2 != 0 {
+        v.extend_from_slice(&obu(6, false, 0, true, 0, &[0x10, 0x22, 0x33, 0x44, 0x55]));
+    }
+    v
+}
+
 /// The init segment a muxer built from this configuration returns (None: build refused / panic).
 pub fn init_bytes(c: &InitCase) -> Option<Vec<u8>> {
     let seq = c.av1.normalised();
@@ -531,7 +550,7 @@ pub fn init_bytes(c: &InitCase) -> Option<Vec<u8>> {
         sps: c.sps.clone(),
         pps: c.pps.clone(),
         vps: c.vps.clone(),
-        av1: obu(1, c.av1_obu.ext, c.av1_obu.ext_byte, true, c.av1_obu.leb_pad % 4, &seq.payload()),
+        av1: av1_argument(c, &obu(1, c.av1_obu.ext, c.av1_obu.ext_byte, true, c.av1_obu.leb_pad % 4, &seq.payload())),
         vp9: c.vp9.clone(),
         via_builder: c.via_builder,
         timescale: 90000,
@@ -612,7 +631,7 @@ pub fn eval_init(c: &InitCase) -> Outcome {
         sps: c.sps.clone(),
         pps: c.pps.clone(),
         vps: c.vps.clone(),
-        av1: seq_obu.clone(),
+        av1: av1_argument(c, &seq_obu),
         vp9: c.vp9.clone(),
         via_builder: c.via_builder,
         timescale: 90000,
